@@ -206,3 +206,7 @@ META["C04"]["rule"] += (" cross-burst profile: the writer (whole script, back to
                         "response to the next, whatever the stream (interleavings are the Go runtime's; judged at rest).")
 META["C20"]["rule"] += (" queue-burst profile: producer and consumer hammer the real queue truly concurrently in one step (2000-20000 hand-overs); at rest a "
                         "consumer waiting although completed pushes outnumber pulls, or a producer waiting below its threshold, is a lost wake-up.")
+
+for _p in ("C09", "C10", "C11", "C12", "C13"):
+    META[_p]["rule"] += (" In half of the runs the client's own goroutines are held 0-3 simulated nanoseconds (fixed per site per run, drawn "
+                         "before the client exists) at five guarded hand-over points, which makes their relative order a function of the seed.")
